@@ -26,7 +26,12 @@ KERNELS = [
     ("streams.py", "accuflux", {"idxs_ds": "idx", "seq": "seq", "data": "z", "nodata": "Z"}),
     ("streams.py", "accuflux_ds", {"idxs_ds": "idx", "seq": "seq", "data": "z", "nodata": "Z"}),
     ("arithmetics.py", "upstream_sum", {"idxs_ds": "idx", "data": "z", "nodata": "Z", "mv": "mv"}),
+    ("core.py", "upstream_count", {"idxs_ds": "idx", "mv": "mv", "mask": "omask"}),
+    ("streams.py", "stream_order", {"idxs_ds": "idx", "seq": "seq", "idxs_us_main": "idx", "mask": "omask", "mv": "mv"}),
+    ("streams.py", "strahler_order", {"idxs_ds": "idx", "seq": "seq", "mask": "omask"}),
 ]
+# calls to other translated kernels allowed in a prologue: callee -> (module alias, result type, argument order)
+CALLS = {"upstream_count": ("core", "z", ["idxs_ds", "mask"])}
 
 
 class K:
@@ -92,7 +97,19 @@ class K:
                         and isinstance(a.comparators[0], ast.Constant) and a.comparators[0].value is None
                         and isinstance(b, ast.Subscript) and isinstance(b.value, ast.Name) and b.value.id == a.left.id):
                     return f"(mget {a.left.id} {self.ex(b.slice)})"
+            # `m is not None and not m[i]`  ->  negb (mget m i)
+            if isinstance(e.op, ast.And) and len(e.values) == 2:
+                a, b = e.values
+                if (isinstance(a, ast.Compare) and len(a.ops) == 1 and isinstance(a.ops[0], ast.IsNot)
+                        and isinstance(a.left, ast.Name) and self.ty.get(a.left.id) == "omask"
+                        and isinstance(a.comparators[0], ast.Constant) and a.comparators[0].value is None
+                        and isinstance(b, ast.UnaryOp) and isinstance(b.op, ast.Not) and isinstance(b.operand, ast.Subscript)
+                        and isinstance(b.operand.value, ast.Name) and b.operand.value.id == a.left.id):
+                    return f"(negb (mget {a.left.id} {self.ex(b.operand.slice)}))"
             op = " && " if isinstance(e.op, ast.And) else " || "
+            for v in e.values:
+                if self.typ(v) != "bool":
+                    fail(v, self.fn, "non-boolean operand of and/or")
             parts = [self.ex(v) for v in e.values]
             for v in e.values:
                 if self.typ(v) != "bool":
@@ -153,6 +170,17 @@ class K:
             fail(node, self.fn, "element type mismatch in store")
         return arr, self.ex(tgt.slice)
 
+    def pure_stores(self, body):
+        for s in body:
+            if isinstance(s, ast.Assign) and len(s.targets) == 1 and isinstance(s.targets[0], ast.Subscript):
+                continue
+            if isinstance(s, ast.AugAssign) and isinstance(s.target, ast.Subscript):
+                continue
+            if isinstance(s, ast.If) and self.pure_stores(s.body) and self.pure_stores(s.orelse):
+                continue
+            return False
+        return True
+
     def stmts(self, body, ind):
         if not body:
             return " " * ind + self.tuple()
@@ -160,6 +188,18 @@ class K:
         pad = " " * ind
         if isinstance(s, ast.Continue):
             return pad + self.tuple()
+        if (isinstance(s, ast.Assign) and len(s.targets) == 1 and isinstance(s.targets[0], ast.Tuple)
+                and isinstance(s.value, ast.Tuple) and len(s.targets[0].elts) == len(s.value.elts)
+                and all(isinstance(t, ast.Name) for t in s.targets[0].elts)):
+            # a, b = x, y with fresh names a, b that do not occur in x, y: sequential lets
+            names = [t.id for t in s.targets[0].elts]
+            used = {nd.id for v in s.value.elts for nd in ast.walk(v) if isinstance(nd, ast.Name)}
+            if used & set(names) or any(nm in self.ty for nm in names):
+                fail(s, self.fn, "tuple assignment to names in use")
+            seqs = [ast.Assign(targets=[t], value=v) for t, v in zip(s.targets[0].elts, s.value.elts)]
+            for q in seqs:
+                ast.copy_location(q, s)
+            return self.stmts(seqs + rest, ind)
         if isinstance(s, ast.Assign) and len(s.targets) == 1:
             t = s.targets[0]
             if isinstance(t, ast.Name):
@@ -181,6 +221,12 @@ class K:
         if isinstance(s, ast.If):
             if self.typ(s.test) != "bool":
                 fail(s, self.fn, "non-boolean condition")
+            if rest and self.pure_stores(s.body) and self.pure_stores(s.orelse):
+                # branches that only store into the arrays: join point instead of duplicating the continuation
+                a = self.stmts(list(s.body), ind + 2)
+                b = self.stmts(list(s.orelse), ind + 2)
+                pat = self.tuple() if len(self.state) == 1 else "'" + self.tuple()
+                return f"{pad}let {pat} := if {self.ex(s.test)} then\n{a}\n{pad}else\n{b} in\n" + self.stmts(rest, ind)
             saved = (dict(self.ty), set(self.locals))
             a = self.stmts(list(s.body) + rest, ind + 2)
             self.ty, self.locals = dict(saved[0]), set(saved[1])
@@ -205,8 +251,9 @@ class K:
         if body and isinstance(body[0], ast.Expr) and isinstance(getattr(body[0], "value", None), ast.Constant):
             body = body[1:]
         idxarr = [a for a in args if self.ty[a] == "idx"]
-        if len(idxarr) != 1:
-            fail(fd, self.fn, "exactly one index array expected")
+        if not idxarr or idxarr[0] != "idxs_ds":
+            fail(fd, self.fn, "the network index array idxs_ds is expected first")
+        self.derived = []
         self.locals = set()
         loop = None
         for pos, s in enumerate(body):
@@ -222,6 +269,20 @@ class K:
                     fail(s, self.fn, "copy of a non-array")
                 self.ty[name] = self.ty[src]
                 self.init[name] = src
+            elif (isinstance(v, ast.Call) and isinstance(v.func, ast.Attribute) and isinstance(v.func.value, ast.Name)
+                  and v.func.attr in CALLS and v.func.value.id == CALLS[v.func.attr][0] and not v.args):
+                # x = core.upstream_count(idxs_ds=idxs_ds, mask=mask, mv=mv): every keyword passes the parameter of the same name
+                mod, rty, order = CALLS[v.func.attr]
+                kws = {}
+                for kw in v.keywords:
+                    if not (isinstance(kw.value, ast.Name) and kw.value.id == kw.arg and kw.arg in self.ty):
+                        fail(s, self.fn, "unsupported argument of a kernel call")
+                    kws[kw.arg] = kw.value.id
+                if sorted(k for k in kws if self.ty[k] != "mv") != sorted(order):
+                    fail(s, self.fn, "kernel call does not pass exactly the expected arguments")
+                self.ty[name] = rty
+                self.derived.append((name, f"(gen_{v.func.attr} {' '.join(order)})"))
+                continue
             elif gen.is_np_call(v, ("full",)) and len(v.args) >= 2:
                 n = self.size_of(v.args[0])
                 val = v.args[1]
@@ -264,13 +325,14 @@ class K:
             if t0 in ("mv",):
                 continue
             params.append(f"({RENAME.get(a, a)} : {dict(idx='list nat', z='list Z', Z='Z', seq='list nat', omask='option (list bool)')[t0]})")
+        dparams = [f"({nm} : list Z)" for nm, _ in self.derived]
         name = f"gen_{fd.name}"
         pat = self.tuple() if len(self.state) == 1 else "'" + self.tuple()
         stname = "st" if len(self.state) > 1 else self.state[0]
         bodytxt = self.stmts(list(f.body), 4)
         sttype = " * ".join("list nat" if self.ty[a] == "idx" else "list Z" for a in self.state)
         out = [f"(* {self.fn}: {fd.name} *)"]
-        out.append(f"Definition {name}_step {' '.join(params)} (st : {sttype}) ({f.target.id} : nat) : {sttype} :=")
+        out.append(f"Definition {name}_step {' '.join(params + dparams)} (st : {sttype}) ({f.target.id} : nat) : {sttype} :=")
         out.append(f"  let NMV := length {idxarr[0]} in")
         if len(self.state) > 1:
             out.append(f"  let {pat} := st in")
@@ -293,7 +355,10 @@ class K:
                 res = f"(snd {res})"
         out.append(f"Definition {name} {' '.join(params)} : {'list nat' if self.ty[proj] == 'idx' else 'list Z'} :=")
         out.append(f"  let NMV := length {idxarr[0]} in")
-        out.append(f"  let r := fold_left ({name}_step {pnames}) {dom} {init} in {res}.")
+        for nm, expr in self.derived:
+            out.append(f"  let {nm} := {expr} in")
+        dn = "".join(" " + nm for nm, _ in self.derived)
+        out.append(f"  let r := fold_left ({name}_step {pnames}{dn}) {dom} {init} in {res}.")
         return "\n".join(out)
 
 
